@@ -987,6 +987,157 @@ def run_end_to_end(ctx, w, n):
                          dict(model=name, length=L, ne=ne, te=te, rate_par=par, composition=comp_desc(w, comp)))
 
 
+
+# ------------------------------------------------------------------------------------------------------------------
+#  re-evaluation stream: the same model object is evaluated again after the provider / composition / electrons changed
+# ------------------------------------------------------------------------------------------------------------------
+REEVAL_KINDS = ('exc', 'rec', 'cx', 'trp', 'brems')
+REEVAL_MODEL = dict(exc='ExcitationLine', rec='RecombinationLine', cx='ThermalCXLine', trp='TotalRadiatedPower', brems='Bremsstrahlung')
+
+
+def reeval_state(w, kind, model, st, user_gaunt=None):
+    """evaluate `model.emission` in the plasma's *current* state `st`; returns (obs for K, K line, documented value(s), floor)"""
+    pt, dr = w.Point3D(0.1, 0.0, -0.1), w.Vector3D(0, 0, 1)
+    comp, ne, te, par = st['comp'], st['ne'], st['te'], st['par']
+    le, lc, tr = st['le'], st['lc'], st['tr']
+    if kind in ('exc', 'rec', 'cx'):
+        w.RecLS.calls = []
+        sp = w.Spectrum(390.0, 520.0, 8)
+        stt, res = call(model.emission, pt, dr, sp)
+        got = stt if stt != 'ok' else ('none' if not w.RecLS.calls else float(w.RecLS.calls[-1][0]))
+        if kind == 'cx':
+            line = 'cx %d %d %d %s %s' % (le, lc, tr, fs([PI, ne, te, par[0], par[1], par[2], par[3]]), sp_tokens(w, comp))
+            want = doc_cx(w, par, comp, ne, te, le, lc, tr)
+        else:
+            line = 'line %s %d %d %d %s %s' % (kind, le, lc, tr, fs([PI, ne, te, par[0], par[1], par[2]]), sp_tokens(w, comp))
+            want = doc_line(par, kind, comp, ne, te, le, lc, tr, lc if kind == 'exc' else lc + 1)
+        return (got if isinstance(got, str) else [got]), line, want, 0.0
+    mn, mx, bins = st['window']
+    sp = w.Spectrum(mn, mx, bins)
+    stt, res = call(model.emission, pt, dr, sp)
+    samples = [float(x) for x in sp.samples]
+    guard = not (ne > 0 and te > 0)
+    if kind == 'trp':
+        has = st['has']
+        got = stt if stt != 'ok' else ('none' if (guard and not any(samples)) else samples[0])
+        line = 'trp %d %d %s %d %d %d %s %s' % (le, lc, fs([PI, ne, te, mn, mx]), has[0], has[1], has[2], fs(par[:3]), sp_tokens(w, comp))
+        want = doc_trp(w, par, has, comp, ne, te, mn, mx, le, lc)
+        if stt == 'ok' and not all(x == samples[0] for x in samples):
+            got = 'non-uniform'
+        return (got if isinstance(got, str) else [got]), line, want, 0.0
+    g = user_gaunt if user_gaunt is not None else st['gaunt']
+    got = stt if stt != 'ok' else ('none' if (guard and not any(samples)) else samples)
+    line = 'be %s %d %s %s' % (fs([PI, ne, te, mn, float(sp.delta_wavelength)]), bins, fs([1e-5] + list(g)), sp_tokens(w, comp))
+    if guard:
+        want = [0.0] * bins
+    else:
+        gf = lambda z, t, l: g[0] + g[1] * z + g[2] * t + g[3] * l
+        zs, ns = [float(c) for (e, c, n, t) in comp], [n for (e, c, n, t) in comp]
+        f = lambda l: doc_brems(gf, zs, ns, ne, te, l)
+        want = [bin_average(f, mn + i * (mx - mn) / bins, mn + (i + 1) * (mx - mn) / bins) for i in range(bins)]
+    return got, line, want, 1e-300
+
+
+def reeval_ok(kind, got, want):
+    """S: does the implementation's output equal the documented value for the current state?"""
+    if want is None:
+        return got == 'RuntimeError'
+    if isinstance(got, str):
+        if got != 'none':
+            return False
+        return (want == 0.0) if not isinstance(want, list) else not any(want)
+    if kind == 'brems':
+        return len(got) == len(want) and all(close(a, b, 3e-4, 1e-290) for a, b in zip(got, want))
+    return close(got[0], want, 1e-9, 0.0)
+
+
+def run_reeval(ctx, w, K, n):
+    from raysect.primitive import Sphere
+    rng = ctx.rng
+    for it in range(n):
+        kind = REEVAL_KINDS[it % len(REEVAL_KINDS)]
+        name = REEVAL_MODEL[kind]
+        le = rng.choice([4, 9, 10, 12])
+        lc = rng.randint(0, w.znum(le) - 1)
+        tr = rng.randrange(len(TRANSITIONS))
+
+        def fresh_comp():
+            comp = rnd_composition(w, rng, le, lc, nmax=6)
+            # mostly emitting states: the point of this stream is stale caches, guards are covered elsewhere
+            return [(e, c, abs(n_) if rng.random() < 0.8 and n_ != 0 else n_, abs(t) if t != 0 else 1.0) for (e, c, n_, t) in comp]
+        par_a, par_b = rnd_par(rng), rnd_par(rng)
+        par_a, par_b = (abs(par_a[0]) or 1e-35,) + par_a[1:], (abs(par_b[0]) * 3 or 2e-35,) + par_b[1:]
+        ga, gb = (rng.choice([1.0, 1.5]), 0.0, 0.0, 0.0), (rng.choice([0.75, 2.0]), 0.0, 0.0, 0.0)
+        has_a, has_b = (1, 1, 1), tuple(int(rng.random() < 0.8) for _ in range(3))
+        st = dict(comp=fresh_comp(), ne=10 ** rng.uniform(17, 20), te=10 ** rng.uniform(0, 3.5), par=par_a, has=has_a, gaunt=ga,
+                  le=le, lc=lc, tr=tr, window=(rng.uniform(200, 600), 0, 0))
+        st['window'] = (st['window'][0], st['window'][0] + rng.uniform(1, 300), rng.choice([1, 2, 5]))
+        attached = rng.random() < 0.6                       # through Plasma.models / Plasma.atomic_data, or stand-alone model
+        user_gaunt = (1.25, 0.0, 0.0, 0.0) if (kind == 'brems' and rng.random() < 0.3) else None
+        ad_a, ad_b = w.MockAD(par_a, has=has_a, gaunt=ga), w.MockAD(par_b, has=has_b, gaunt=gb)
+        pl = w.plasma(st['comp'], st['ne'], st['te'])
+        line = w.Line(w.elements[le], lc, TRANSITIONS[tr])
+        kw = {} if attached else dict(plasma=pl, atomic_data=ad_a)
+        if kind in ('exc', 'rec', 'cx'):
+            model = getattr(w.cm, name)(line, lineshape=w.RecLS, **kw)
+        elif kind == 'trp':
+            model = w.cm.TotalRadiatedPower(w.elements[le], lc, **kw)
+        else:
+            model = w.cm.Bremsstrahlung(gaunt_factor=w.Gaunt(user_gaunt) if user_gaunt else None, **kw)
+        if attached:
+            pl.geometry = Sphere(2.0)
+            pl.atomic_data = ad_a
+            pl.models = [model]
+        ops = ['provider', 'density', 'composition', 'electrons']
+        rng.shuffle(ops)
+        history = ['fresh']
+        ok0 = True
+        for stage, op in enumerate([None] + ops):
+            if op == 'provider':
+                if attached:
+                    pl.atomic_data = ad_b
+                else:
+                    model.atomic_data = ad_b
+                st = dict(st, par=par_b, has=has_b, gaunt=gb)
+            elif op == 'density':
+                j = rng.randrange(len(st['comp']))
+                e_, c_, n_, t_ = st['comp'][j]
+                n2, t2 = n_ * rng.choice([2.0, 0.5, 3.0]) + rng.choice([0.0, 1e16]), t_ * rng.choice([1.0, 2.0])
+                pl.composition.add(w.Species(w.elements[e_], c_, w.Dist(n2, t2)))
+                st = dict(st, comp=st['comp'][:j] + [(e_, c_, n2, t2)] + st['comp'][j + 1:])
+            elif op == 'composition':
+                comp2 = fresh_comp()
+                pl.composition = [w.Species(w.elements[e_], c_, w.Dist(n_, t_)) for (e_, c_, n_, t_) in comp2]
+                st = dict(st, comp=comp2)
+            elif op == 'electrons':
+                ne2, te2 = 10 ** rng.uniform(17, 20), 10 ** rng.uniform(0, 3.5)
+                pl.electron_distribution = w.Dist(ne2, te2)
+                st = dict(st, ne=ne2, te=te2)
+            if op:
+                history.append(op)
+            got, kline, want, floor = reeval_state(w, kind, model, st, user_gaunt)
+            desc = dict(model=name, history=list(history), attached_through_plasma=attached, user_gaunt=user_gaunt,
+                        line=dict(element=tr_constants.ELEMENT_IDS[le], charge=lc, transition=TRANSITIONS[tr]), ne=st['ne'], te=st['te'],
+                        rate_par=st['par'], rates_present=st['has'], gaunt=st['gaunt'], window=st['window'], composition=comp_desc(w, st['comp']))
+            K.add('reeval:' + kind, kline, got, desc, floor=floor)
+            ok = reeval_ok(kind, got, want)
+            ctx.count('reeval:%s:%s' % (kind, op or 'fresh'))
+            emits = not isinstance(got, str)
+            ctx.case(key=('reeval', kind, it, stage) if emits else None, sample=desc if (it < 5 and stage == 2 and kind == 'brems') else None)
+            if stage == 0:
+                ok0 = ok
+                if not ok:
+                    ctx.count('reeval:fresh-state-already-differs')     # reported by the fresh-scene streams
+                    break
+            elif not ok:
+                shown = got if isinstance(got, str) else got[:3]
+                wshown = want if not isinstance(want, list) else want[:3]
+                ctx.fail('C03:%s.emission:after-%s:differs-from-documented-for-current-state' % (name, {'provider': 'provider-swap',
+                         'density': 'species-density-change', 'composition': 'composition-replaced', 'electrons': 'electron-distribution-change'}[op]),
+                         '%s evaluated again after %s (%s): %r, documented for the current provider/plasma %r'
+                         % (name, ' -> '.join(history), 'attached to the plasma' if attached else 'stand-alone', shown, wshown), desc)
+                break
+
 # ------------------------------------------------------------------------------------------------------------------
 def compare(ctx, K, outs):
     for line, obs, (kind, desc, floor), o in zip(K.lines, K.obs, K.meta, outs):
@@ -1017,7 +1168,8 @@ def run(ctx):
     ctx.rule = ('random plasma compositions of 1..8 species over 14 elements/isotopes (neutrals, bare nuclei, H/protium/D/T, other charge states '
                 'of the line element), densities/temperatures incl. 0, -0.0 and negative, mock rates distinct per (accessor, element, charge, donor, '
                 'transition) and dependent on evaluate() arguments, incl. zero/negative/None coefficients; a case is distinct by (model, line, set of '
-                'species keys, guard class) and non-trivial when the model actually emits (no guard fired)')
+                'species keys, guard class) and non-trivial when the model actually emits (no guard fired); re-evaluation stream: the same model object '
+                'is evaluated fresh and again after each of provider swap / species density change / composition replacement / electron change (random order)')
     ctx.trusted += ['pi, sqrt, exp, log, log10 are parameters of the model (libm at Float); the provider rate functions, the Gaunt-factor '
                     'interpolator (raysect Interpolator2DArray) and the Gauss-Legendre nodes (scipy roots_legendre) are parameters',
                     'hand-written CODATA-2018 table lean/Cherab/Model/Codata.lean (and its copy in harness/props/c03.py)',
@@ -1042,6 +1194,7 @@ def run(ctx):
     run_gaunt(ctx, w, K, ctx.n(800, 10000))
     run_radfn(ctx, w, K, ctx.n(60, 600))
     run_end_to_end(ctx, w, ctx.n(4, 40))
+    run_reeval(ctx, w, K, ctx.n(250, 4000))
     outs = ctx.driver(K.lines)
     ctx.traces = len(K.lines)
     compare(ctx, K, outs)
